@@ -278,7 +278,7 @@ def execute(trace):
             adj = {ri.selector for ri in infos
                    if any(cs == ri.selector or (has_bom and cs.startswith("\ufeff") and cs.endswith(ri.selector)) for cs in card_sels)}
             fv = {"input_decl_parse_error": _has_decl_parse_error(text), "input_parse_error": in_has_err,
-                  "adjusted_in_file": len(adj) > 0}
+                  "adjusted_in_file": len(adj) > 0, "f7_predicted": _f7_predicted(text.lstrip("\ufeff"), infos, props, adj)}
             errored = ("<SBX>/tree/" + rel) in err_paths
             if errored or out_ent is None or out_ent[0] != "f":
                 # a stylesheet with a top-level parse error is not "syntactically valid": nothing is demanded
@@ -366,6 +366,26 @@ def execute(trace):
                 bump("crash_mid_write")
                 bump("crash_points_enumerated")
     return {"violations": vio, "digest": base.digest(events), "nontrivial": nontrivial, "stats": stats, "steps": steps}
+
+
+def _f7_predicted(text, infos, props, adj):
+    """Known finding F7, precisely: the tool re-serialises the parsed declaration list of (a) every top-level
+    :root/html rule and (b) every rule whose own declaration it rewrote; that fails iff the list holds a
+    declaration tinycss2 could not parse (ParseError)."""
+    import tinycss2
+    from tinycss2 import ast as A
+
+    def has_err(node):
+        return any(isinstance(d, A.ParseError) for d in tinycss2.parse_declaration_list(node.content))
+
+    for ri in infos:
+        if ri.is_root and has_err(ri.node):
+            return True
+        if ri.selector in adj and has_err(ri.node):
+            m = refs._VAR_RE.match((ri.color_value or "").strip()) if "var(" in (ri.color_value or "").lower() else None
+            if not (m and m.group(1) in props):  # the rule's own declaration was rewritten (literal or fallback colour)
+                return True
+    return False
 
 
 def _top_level_parse_error(text):
